@@ -1,4 +1,5 @@
 import Tea.Proofs.LifecycleStartup
+import Tea.Proofs.LifeAccept
 /-
 C04 — Run always returns, with the right error, whatever is in flight at termination.
 
@@ -874,5 +875,22 @@ example :
            .shWaitReadTimeout w, .shRenderer w, .shRestore w])).all (fun l => (step s l).isNone)))
       = some (.starting .modeWrites, true) := by
   decide
+
+/-! ### 7. the trace checker of the `ltrace` correspondence stream is sound
+
+The `ltrace` stream records histories of REAL programs (trace points at the start-up stages, the phases of
+every shutdown call, the goroutine exits, the loop's end, Run's tail and return) and asks the checker of
+`Tea/Runtime/LifeAccept.lean` whether the model has a run with that observable history. The answer
+"accepted" means what it says: there is a run of `step` from Run's entry `init0 c`, through reachable
+states only, whose observable part is exactly the recorded sequence, with nothing but hidden labels in
+between (`Run`, `Explains`). So every theorem of this file about reachable states applies to the states the
+recorded history passed through. (The checker is bounded by fuel, so it may in principle reject a history
+the model has; it never accepts one the model has not.) -/
+
+/-- **ACCEPTED MEANS: THE MODEL HAS THAT RUN.** -/
+theorem C04_trace_checker_sound (hid : List Label) (c : Config) (obs : List Obs)
+    (h : firstRejectedWith hid c obs = none) :
+    ∃ s0 s', HiddenPath hid (init0 c) s0 ∧ Reachable c s0 ∧ Reachable c s' ∧ Run hid s0 obs s' :=
+  firstRejectedWith_sound hid c obs h
 
 end Tea.Props.C04
